@@ -175,3 +175,40 @@ def framing_errors(k0: int, k1: int, k2: int, k3: int, k4: int, k5: int) -> bool
     except RegexNotMatchError:
         return done(True)
     return done(isinstance(d, dict))
+
+
+# ---------------------------------------------------------------------------------------------
+# C14 with the real recognisers: unsupported / foreign / garbage lines inserted into a section
+# ---------------------------------------------------------------------------------------------
+import chartparse.track as T  # noqa: E402
+from chartparse.instrument import Difficulty, Instrument, InstrumentTrack  # noqa: E402
+from chartparse.sync import BPMEvent, BPMEvents  # noqa: E402
+from datetime import timedelta  # noqa: E402
+
+INSERTS = [None, "  5 = N 8 0", "  5 = N 9 10", "  5 = S 64 3", "  5 = S 0 3", "  5 = E two words", "garbage",
+           "  5 = B 120000", "  5 = N 10 0", "  5 = N 0", "5 = TS 4", '  5 = E "section x"']
+BASE_SECTION = ["  0 = N 0 0", "  96 = N 1 48", "  96 = S 2 10", "  192 = E solo"]
+NSLOTS = H.part("VF_NSLOTS", 2)
+
+
+def skip_real(k0: int, k1: int, k2: int, p0: int, p1: int, p2: int) -> bool:
+    """
+    pre: all(0 <= k < len(INSERTS) for k in [k0, k1, k2]) and all(0 <= p <= 4 for p in [p0, p1, p2])
+    pre: all(k == 0 for k in [k0, k1, k2][NSLOTS:]) and all(p == 0 for p in [p0, p1, p2][NSLOTS:])
+    pre: K0 < 0 or k0 == K0
+    post: _
+    """
+    be = BPMEvents(events=[BPMEvent(tick=0, timestamp=timedelta(0), bpm=120.0)], resolution=192)
+    lines = list(BASE_SECTION)
+    n_ins = 0
+    for k, p in sorted(zip([k0, k1, k2][:NSLOTS], [p0, p1, p2][:NSLOTS]), key=lambda kp: -kp[1]):
+        ins = H.pick(INSERTS, k)
+        if ins is not None:
+            lines.insert(p, ins)
+            n_ins += 1
+    log0, log1 = H.CountingLogger(), H.CountingLogger()
+    with H.patched((T, "logger", log0)):
+        ref = InstrumentTrack.from_chart_lines(Instrument.GUITAR, Difficulty.EXPERT, list(BASE_SECTION), be)
+    with H.patched((T, "logger", log1)):
+        got = InstrumentTrack.from_chart_lines(Instrument.GUITAR, Difficulty.EXPERT, lines, be)
+    return done(got == ref and len(log0.warnings) == 0 and len(log1.warnings) == n_ins)
